@@ -50,11 +50,11 @@ def results(b, lib):
 
 def run(ctx):
     lib = ctx.lib()
-    check_serializer(ctx, lib)
-    check_states(ctx, lib)
-    check_deserializer(ctx, lib)
-    check_completeness(ctx, lib)
-    check_entry(ctx, lib)
+    ctx.attempt("check_serializer", check_serializer, ctx, lib)
+    ctx.attempt("check_states", check_states, ctx, lib)
+    ctx.attempt("check_deserializer", check_deserializer, ctx, lib)
+    ctx.attempt("check_completeness", check_completeness, ctx, lib)
+    ctx.attempt("check_entry", check_entry, ctx, lib)
 
 
 # =============================================================================================
